@@ -63,8 +63,9 @@ def gen(fmts, nps, units, nrecs_list, bases, aligns, reps=(1, 2), pres=('coll',)
                 sh = p.m.shape(rv); inner = p.m.inner(rv); t = p.m.vars[rv]['xtype']
                 p.do(dict(op='begin_indep'))
                 base_n = p.m.numrecs
-                for rank in range(1, np):
-                    o = dict(op='put', v=rv, start=[base_n + rank - 1] + [0] * (len(sh) - 1), count=[1] + sh[1:], vals=[(rank * 7 + j + k) % 60 + 20 for j in range(inner)], coll=0, mem=D.XT_MEM[t])
+                for rank in range(np):
+                    if rank == (np - 1 if k % 2 else 0) and np > 2: continue      # one process appends nothing; alternately the root or the last one holds the highest count
+                    o = dict(op='put', v=rv, start=[base_n + (np - 1 - rank if k % 2 == 0 else rank)] + [0] * (len(sh) - 1), count=[1] + sh[1:], vals=[(rank * 7 + j + k) % 60 + 20 for j in range(inner)], coll=0, mem=D.XT_MEM[t])
                     rcs, st = p.m.apply(o); assert 0 in rcs; p.m = st
                     p.rc_lines.append((emit_std(p.case, rank, o, None), 0))
             p.do(dict(op='redef'))
